@@ -7,30 +7,32 @@
 (*   hooks     RegBegin{c,id} Registered{c,id} UnregBegin{c,id,k,p} Unregistered{c,id}          (doInvoke)            *)
 (*             NetRecv{q} (connection's recv loop)  RecvBad{q} RecvBegin{q,id} RecvLookup{q,found}                    *)
 (*             RecvDelivered{q} RecvGaveUp{q} (AdapterProxy.Recv)  Dequeued{c,id,retry} (sender goroutine)            *)
+(*             RecvBegin carries f: the result its goroutine reported later in RecvLookup (1 found, 0 not found, 2 none) *)
 (* The lock-free operations (resp.Store / Load / Delete, the counters, the channel rendezvous) are not events: they   *)
-(* are ClientMux actions that TLC places between the Begin and End events that bracket them in the code.  To keep     *)
-(* the search linear a silent step is enabled only when the next event needs it, or when its order against a          *)
-(* concurrent operation on the same id matters (a lookup window overlapping a register / unregister window).          *)
+(* are ClientMux actions placed between the Begin and End events that bracket them in the code.  The placement needs  *)
+(* no search: a caller's or receiver's silent step is enabled only when the next event of that process needs it, and   *)
+(* a table lookup is taken at the first moment of its window at which the table agrees with the reported result (see   *)
+(* "Forced").  States generated = distinct states on every accepted trace.                                             *)
 (* What the code reports is accepted and judged by the invariants: the id a call drew (IdNonZero, IdsDistinct), the   *)
 (* packet a caller took (ReplyMatches), the counters read at quiescence (NoResidue), the event times (TDeadline).     *)
 EXTENDS ClientMux, Json
-VARIABLES l, scn, qlo, qhi, want
+VARIABLES l, scn, qlo, qhi, want, win
 Trace == ndJsonDeserialize("trace.ndjson")
-tvars == <<vars, l, scn, qlo, qhi, want>>
+tvars == <<vars, l, scn, qlo, qhi, want, win>>
 Slack == 500
 NoScn == [k |-> 0, dial |-> 0, qmax |-> 0, sc |-> -1]
-TraceInit == Init /\ l = 1 /\ scn = NoScn /\ qlo = [c \in Callers |-> 0] /\ qhi = [c \in Callers |-> 0] /\ want = EmptyF
+TraceInit == Init /\ l = 1 /\ scn = NoScn /\ qlo = [c \in Callers |-> 0] /\ qhi = [c \in Callers |-> 0] /\ want = EmptyF /\ win = {}
 Here == l <= Len(Trace)
 E == Trace[l]
 Timeless == {"Config", "End"}
 Synced == Here /\ (IF E.e \in Timeless THEN TRUE ELSE now = E.t)
 IsEv(e) == Here /\ E.e = e /\ now = E.t /\ l' = l + 1 /\ UNCHANGED scn
-Keep == UNCHANGED want
+Keep == UNCHANGED <<want, win>>
 Same == UNCHANGED vars
 
 \* the clock follows the recorded times (no maximal progress here: that is what the slack is for)
 TAdvance == /\ Here /\ E.e \notin Timeless /\ now < E.t /\ now' = E.t
-            /\ UNCHANGED <<msgID, pc, cid, out, st, eff, resp, queueLen, mgrInvoke, tInvoke, conn, dialer, dmode, dialT, sendQ, wire, seen, pkt, rst, rch, lookT, l, scn, want>>
+            /\ UNCHANGED <<msgID, pc, cid, out, st, eff, resp, queueLen, mgrInvoke, tInvoke, conn, dialer, dmode, dialT, sendQ, wire, seen, pkt, rst, rch, lookT, l, scn, want, win>>
 
 TConfig == /\ Here /\ E.e = "Config" /\ l' = l + 1 /\ E.k <= Cardinality(Callers)
            /\ scn' = [k |-> E.k, dial |-> E.dial, qmax |-> E.qmax, sc |-> E.sc]
@@ -40,7 +42,7 @@ TConfig == /\ Here /\ E.e = "Config" /\ l' = l + 1 /\ E.k <= Cardinality(Callers
            /\ resp' = EmptyF /\ queueLen' = 0 /\ mgrInvoke' = 0 /\ tInvoke' = 0
            /\ conn' = "open" /\ dialer' = 0 /\ dmode' = "accept" /\ dialT' = 0
            /\ sendQ' = {} /\ wire' = {} /\ seen' = EmptyF
-           /\ pkt' = <<>> /\ rst' = <<>> /\ rch' = <<>> /\ lookT' = <<>> /\ now' = 0 /\ want' = EmptyF
+           /\ pkt' = <<>> /\ rst' = <<>> /\ rch' = <<>> /\ lookT' = <<>> /\ now' = 0 /\ want' = EmptyF /\ win' = {}
 
 \* ---- trace-level steps that have no counterpart among the fine-grained actions
 \* the call reports the id it drew (genRequestID under concurrency is judged by the invariants and by the id oracle)
@@ -56,9 +58,12 @@ TTake(c, p) == /\ pc[c] = "wait"
                /\ IF p \in DOMAIN rst /\ rst[p] = "found" /\ rch[p] = c THEN Deliver(p) ELSE Misdeliver(c, p)
 
 \* ---- events
+\* win: calls between RegBegin and Registered, or between UnregBegin and Unregistered (their Store / Delete may have happened)
+Open(c) == win' = win \cup {c} /\ UNCHANGED want
+Shut(c) == win' = win \ {c} /\ UNCHANGED want
 TCallStart == IsEv("CallStart") /\ E.c <= scn.k /\ Start(E.c)
-TRegBegin == IsEv("RegBegin") /\ pc[E.c] = "reg1" /\ cid[E.c] = E.id /\ Same
-TRegistered == IsEv("Registered") /\ pc[E.c] = "send" /\ cid[E.c] = E.id /\ Same
+TRegBegin == IsEv("RegBegin") /\ pc[E.c] = "reg1" /\ cid[E.c] = E.id /\ Same /\ Open(E.c)
+TRegistered == IsEv("Registered") /\ pc[E.c] = "send" /\ cid[E.c] = E.id /\ Same /\ Shut(E.c)
 TDequeued == /\ IsEv("Dequeued")
              /\ LET m == <<E.id, E.c>> IN
                 IF m \in sendQ THEN SenderWrite(m)
@@ -68,7 +73,7 @@ TPeerRecv == IsEv("PeerRecv") /\ <<E.id, E.c>> \in wire /\ PeerGet(<<E.id, E.c>>
 TPeerSend == IsEv("PeerSend") /\ E.q = Len(pkt) + 1 /\ PeerSend(E.id) /\ pkt'[E.q].tag = E.tag
 TNetRecv == IsEv("NetRecv") /\ RecvPkgBody(E.q)
 TRecvBad == IsEv("RecvBad") /\ E.q \in DOMAIN pkt /\ pkt[E.q].id = GARB /\ RecvStart(E.q)
-TRecvBegin == IsEv("RecvBegin") /\ E.q \in DOMAIN pkt /\ pkt[E.q].id = E.id /\ E.id # GARB /\ RecvStart(E.q) /\ want' = Put(want, E.q, E.f)
+TRecvBegin == IsEv("RecvBegin") /\ E.q \in DOMAIN pkt /\ pkt[E.q].id = E.id /\ E.id # GARB /\ RecvStart(E.q) /\ want' = Put(want, E.q, E.f) /\ UNCHANGED win
 TRecvLookup == IsEv("RecvLookup") /\ E.q \in DOMAIN rst /\ rst[E.q] = (IF E.found THEN "found" ELSE "dropped") /\ Same
 TRecvDelivered == IsEv("RecvDelivered") /\ E.q \in DOMAIN rst /\ rst[E.q] = "delivered" /\ Same
 TRecvGaveUp == IsEv("RecvGaveUp") /\ GiveUp(E.q)
@@ -77,7 +82,8 @@ TUnregBegin == /\ IsEv("UnregBegin") /\ cid[E.c] = E.id
                   \/ E.k = "timeout" /\ Timeout(E.c)
                   \/ E.k = "senderr" /\ TSendFail(E.c)
                   \/ E.k = "reply" /\ TTake(E.c, E.p)
-TUnregistered == IsEv("Unregistered") /\ pc[E.c] = "post" /\ cid[E.c] = E.id /\ Same
+               /\ Open(E.c)
+TUnregistered == IsEv("Unregistered") /\ pc[E.c] = "post" /\ cid[E.c] = E.id /\ Same /\ Shut(E.c)
 \* what the caller was handed is what the peer put into that packet
 TCallEnd == /\ IsEv("CallEnd") /\ pc[E.c] = "done" /\ out[E.c].k = E.k /\ out[E.c].p = E.p
             /\ (E.k = "reply" => (E.p \in DOMAIN pkt /\ pkt[E.p].id = E.rid /\ pkt[E.p].tag = E.tag))
@@ -97,7 +103,7 @@ TQuiesce == /\ IsEv("Quiesce") /\ Quiet
             /\ resp' = IF E.pend = Cardinality(DOMAIN resp) THEN resp ELSE [i \in 45000..(44999 + E.pend) |-> 1]
             /\ (IF E.tinv = 0 /\ tInvoke = 0 THEN TRUE ELSE PrintT(<<"TINV", scn.sc, E.tinv, tInvoke>>))
             /\ UNCHANGED <<msgID, pc, cid, out, st, eff, conn, dialer, dmode, dialT, sendQ, wire, seen, pkt, rst, rch, lookT, now>>
-TEnd == Here /\ E.e = "End" /\ l' = l + 1 /\ UNCHANGED <<vars, scn, want>>
+TEnd == Here /\ E.e = "End" /\ l' = l + 1 /\ UNCHANGED <<vars, scn, want, win>>
 
 \* ---- silent steps, enabled only when the next event needs them ...
 CallerNeed ==
@@ -115,7 +121,7 @@ CallerNeed ==
 RecvNeed ==
   /\ E.e = "RecvDelivered" /\ E.q \in DOMAIN rst
   /\ LET q == E.q IN rst[q] = "found" /\ (Deliver(q) \/ (pc[rch[q]] = "send" /\ SendOpen(rch[q])))
-TSilent == Synced /\ UNCHANGED <<l, scn, want>> /\ (CallerNeed \/ RecvNeed)
+TSilent == Synced /\ UNCHANGED <<l, scn, want, win>> /\ (CallerNeed \/ RecvNeed)
 \* ---- the table lookup of receiver q happens somewhere between RecvBegin{q} and RecvLookup{q}, unordered against the
 \* Store / Delete of a call that is between RegBegin and Registered / UnregBegin and Unregistered.  RecvBegin carries the
 \* result reported later (want[q]: 1 found, 0 not found, 2 none reported), so the placement needs no search: the lookup is
@@ -124,7 +130,7 @@ TSilent == Synced /\ UNCHANGED <<l, scn, want>> /\ (CallerNeed \/ RecvNeed)
 \* These forced steps run before anything else.
 Begun == {q \in DOMAIN rst : rst[q] = "begun" /\ want[q] # 2}
 MatchNow(q) == (want[q] = 1) <=> (pkt[q].id \in DOMAIN resp)
-InWin(q) == {c \in Callers : cid[c] = pkt[q].id /\ pc[c] \in (IF want[q] = 1 THEN {"reg1", "reg2"} ELSE {"unreg1", "unreg2"})}
+InWin(q) == {c \in win : cid[c] = pkt[q].id /\ pc[c] \in (IF want[q] = 1 THEN {"reg1", "reg2"} ELSE {"unreg1", "unreg2"})}
 Ready == {q \in Begun : MatchNow(q) \/ InWin(q) # {}}
 Forced == LET q == CHOOSE q \in Ready : \A r \in Ready : q <= r IN
           IF MatchNow(q) THEN Lookup(q)
@@ -139,12 +145,13 @@ Win == IF scn'.qmax >= 100000 THEN UNCHANGED <<qlo, qhi>>      \* the queue can 
        ELSE /\ qlo' = [c \in Callers |-> IF pc'[c] \in PreReg THEN (IF pc[c] = "idle" \/ Lo < qlo[c] THEN Lo ELSE qlo[c]) ELSE qlo[c]]
             /\ qhi' = [c \in Callers |-> IF pc'[c] \in PreReg THEN (IF pc[c] = "idle" \/ Hi > qhi[c] THEN Hi ELSE qhi[c]) ELSE qhi[c]]
 
-Events == \/ TCallStart \/ TRegBegin \/ TRegistered \/ TDequeued \/ TPeerRecv \/ TPeerSend \/ TNetRecv
-          \/ TRecvBad \/ TRecvLookup \/ TRecvDelivered \/ TRecvGaveUp \/ TUnregBegin \/ TUnregistered
+Events == \/ TCallStart \/ TDequeued \/ TPeerRecv \/ TPeerSend \/ TNetRecv
+          \/ TRecvBad \/ TRecvLookup \/ TRecvDelivered \/ TRecvGaveUp
           \/ TCallEnd \/ TCallEndNoCleanup \/ THung \/ TNoop \/ TQuiesce
-TraceNext == /\ IF Ready # {} THEN Forced /\ UNCHANGED <<l, scn, want>>
+TraceNext == /\ IF Ready # {} THEN Forced /\ UNCHANGED <<l, scn, want, win>>
                 ELSE \/ Events /\ Keep
                      \/ TAdvance \/ TConfig \/ TRecvBegin \/ TEnd \/ TSilent
+                     \/ TRegBegin \/ TRegistered \/ TUnregBegin \/ TUnregistered
              /\ Win
 TraceSpec == TraceInit /\ [][TraceNext]_tvars
 
@@ -161,5 +168,7 @@ TC32 == 1..32
 TC128 == 1..128
 TTO32 == [c \in TC32 |-> 0]
 TTO128 == [c \in TC128 |-> 0]
+TC512 == 1..512
+TTO512 == [c \in TC512 |-> 0]
 TForeign == {0, GARB} \cup (50000..58192)
 ====
